@@ -11,6 +11,13 @@ import (
 
 var c02Templates = []tmpl{
 	{"depth1-escaped-counter", `mk := func() { k := a; return func() { k = k + 1; return k } }; f := mk(); f(); f()`, func(a, b, c, n int64) tOut { return outInt(a + 2) }},
+	{"many-locals-two-instances-in-a-row", `mk := func(s) { l1 := 1; l2 := 2; l3 := 3; l4 := 4; l5 := 5; l6 := 6; l7 := 7; l8 := 8; count := s; return func() { count = count + 1; return count + l1 + l8 - 9 } }; c1 := mk(a); c2 := mk(b); r1 := c1(); r2 := c1(); r3 := c2(); r4 := c1(); (r1 - a) * 1000 + (r2 - a) * 100 + (r3 - b) * 10 + (r4 - a)`, func(a, b, c, n int64) tOut {
+		return outInt(1213)
+	}},
+	{"many-locals-instance-then-other-big-function", `mk := func(s) { l1 := 1; l2 := 2; l3 := 3; l4 := 4; l5 := 5; l6 := 6; l7 := 7; l8 := 8; count := s; return func() { count = count + l8; return count } }; other := func(t) { m1 := t; m2 := t; m3 := t; m4 := t; m5 := t; m6 := t; m7 := t; m8 := t; m9 := t; m10 := t; return m1 + m10 }; g := mk(a); other(b); g()`, func(a, b, c, n int64) tOut { return outInt(a + 8) }},
+	{"compound-assign-to-captured-at-a-later-slot", `mk := func() { p := 1; q := 2; total := a; add := func(v) { total += v; return total }; return add }; f := mk(); f(b); f(c)`, func(a, b, c, n int64) tOut { return outInt(a + b + c) }},
+	{"compound-minus-and-times-on-captured", `mk := func() { p := 7; q := 9; acc := a; step := func(v) { acc -= v; acc *= 2; return acc + p - 7 }; return step }; f := mk(); f(b)`, func(a, b, c, n int64) tOut { return outInt((a - b) * 2) }},
+	{"compound-assign-captured-two-levels-up", `mk := func() { u := 5; total := a; mid := func() { w := 6; return func(v) { total += v + w - 6; return total } }; return mid() }; f := mk(); f(b); f(c) + 0`, func(a, b, c, n int64) tOut { return outInt(a + b + c) }},
 	{"depth1-by-reference", `mk := func() { x := a; g := func() { return x }; x = b; return g }; mk()()`, func(a, b, c, n int64) tOut { return outInt(b) }},
 	{"depth1-write-visible-to-definer", `mk := func() { x := a; set := func() { x = b }; set(); return x }; mk()`, func(a, b, c, n int64) tOut { return outInt(b) }},
 	{"depth1-param-capture", `mk := func(p) { return func(q) { return p - q } }; mk(a)(b)`, func(a, b, c, n int64) tOut { return outInt(a - b) }},
